@@ -1050,10 +1050,13 @@ where
                                 // for the whole batch: a plain read parsed later must not move
                                 // the batch, write included, to a replica.
                                 let primary_needed_earlier = query_router.role() == Some(crate::config::Role::Primary)
-                                    && self
-                                        .extended_protocol_data_buffer
-                                        .iter()
-                                        .any(|data| matches!(data, ExtendedProtocolData::Parse { .. }));
+                                    && self.extended_protocol_data_buffer.iter().any(|data| {
+                                        matches!(
+                                            data,
+                                            ExtendedProtocolData::Parse { .. }
+                                                | ExtendedProtocolData::Bind { .. }
+                                        )
+                                    });
 
                                 let _ = query_router.infer(&ast);
 
@@ -1078,6 +1081,42 @@ where
                 // Bind
                 'B' => {
                     if query_router.query_parser_enabled() {
+                        // A statement prepared under a name by an earlier batch was looked at
+                        // by the router when it was parsed, not now: route its execution by
+                        // what it is, not by whatever happened to be parsed last.
+                        let statement = if self.prepared_statements_enabled {
+                            Bind::get_name(&message)
+                                .ok()
+                                .and_then(|name| self.prepared_statements.get(&name))
+                                .map(|(parse, _)| parse.clone())
+                        } else {
+                            None
+                        };
+
+                        if let Some(parse) = statement {
+                            let ast = BytesMut::try_from(parse.as_ref())
+                                .and_then(|parse_message| query_router.parse(&parse_message));
+
+                            if let Ok(ast) = ast {
+                                // As for Parse: an earlier statement of this batch that needs
+                                // the primary decides for the whole batch.
+                                let primary_needed_earlier = query_router.role() == Some(crate::config::Role::Primary)
+                                    && self.extended_protocol_data_buffer.iter().any(|data| {
+                                        matches!(
+                                            data,
+                                            ExtendedProtocolData::Parse { .. }
+                                                | ExtendedProtocolData::Bind { .. }
+                                        )
+                                    });
+
+                                let _ = query_router.infer(&ast);
+
+                                if primary_needed_earlier {
+                                    query_router.pin_primary();
+                                }
+                            }
+                        }
+
                         query_router.infer_shard_from_bind(&message);
                     }
 
